@@ -85,10 +85,10 @@ Definition code_sem : sem :=
 (** * The fragment F1
 
     simple and WithinTrial factors only (no complex window), every factor in
-    [act_design], sustain 1, zero preambles, no combination excluded from a
-    crossing, constraint kinds Consistency / Cross / Derivation (simple) /
-    AtMostKInARow / ExactlyK / Exclude / Pin (and the kinds that compile to
-    nothing), unambiguous derived-level tables that the [Derivation]
+    [act_design], sustain 1, zero preambles, exclusions from a crossing only through Exclude
+    constraints and inconsistent derived levels, constraint kinds Consistency / Cross / Derivation (simple) /
+    AtMostKInARow / AtLeastKInARow / ExactlyKInARow / ExactlyK / Exclude / Pin /
+    Sequential (and the kinds that compile to nothing), unambiguous derived-level tables that the [Derivation]
     constraints of the record reproduce literally. *)
 Definition factor_f1 (fd : ffactor) : bool :=
   negb (ff_complex fd) && (0 <? length (ff_levels fd)) &&
@@ -108,12 +108,12 @@ Fixpoint entry_ok (deps : list nat) (entry : list (list (option nat))) : bool :=
   end.
 
 (** every table entry has one in-range cell per depended-on factor, and the
-    depended-on factors precede the factor (so that they are listed) *)
+    depended-on factors are factors of the design *)
 Definition tables_ok (f : nat) (fd : ffactor) : bool :=
   match ff_window fd with
   | None => true
   | Some w =>
-    forallb (fun d => d <? f) (win_deps w) &&
+    forallb (fun d => d <? length (fl_design fb)) (win_deps w) &&
     forallb (fun lv => forallb (entry_ok (win_deps w)) (lv_accepts lv)) (ff_levels fd)
   end.
 
@@ -188,12 +188,14 @@ Definition constraint_f1 (c : fconstraint) : bool :=
     forallb (fun r => fst r <? snd r) (windows_of wb)     (* no empty window: EQ on no variables raises *)
   | FExclude f l => (f <? length (fl_design fb)) && (l <? nlevels fb f)
   | FPin _ f l wb => (f <? length (fl_design fb)) && (l <? nlevels fb f) && geom_ok wb && (geometry_sustain fb wb f =? 1)
+  | FAtLeast k f l wb | FExactlyKInARow k f l wb =>
+    (0 <? k) && (f <? length (fl_design fb)) && (l <? nlevels fb f) && geom_ok wb
+  | FSequential f => f <? length (fl_design fb)
   | _ => false
   end.
 
 Definition crossing_f1 (i : nat) (c : list nat) : bool :=
   forallb (fun f => f <? length (fl_design fb)) c &&
-  (length (trial_combinations_of fb c) =? length (crossing_combos fb c)) &&   (* nothing excluded *)
   (0 <? nth i (fl_sizes fb) 0 * crossing_weight fb c) &&
   (nth i (fl_preambles fb) 0 =? 0) &&
   match c with [] => false | _ => true end.
@@ -210,6 +212,17 @@ Fixpoint list_nat_nodup (l : list nat) : bool :=
   | x :: r => negb (existsb (Nat.eqb x) r) && list_nat_nodup r
   end.
 
+(** exclusions: every excluded (factor, level) pair is backed by an [Exclude]
+    constraint of the record (as [Exclude.validate] guarantees), and no
+    derived-level exclusion was expanded into basic combinations *)
+Definition exclude_backed : bool :=
+  forallb (fun p => existsb (fun c => match c with
+                                      | FExclude f l => (f =? fst p) && (l =? snd p)
+                                      | _ => false
+                                      end) (fl_constraints fb)) (fl_exclude fb).
+Definition no_excluded_derived : bool :=
+  match fl_excluded_derived fb with [] => true | _ => false end.
+
 Definition in_f1 : bool :=
   forallb factor_f1 (fl_design fb) &&
   forallb (fun p => tables_ok (fst p) (snd p) && tables_unambiguous (snd p))
@@ -225,6 +238,25 @@ Definition in_f1 : bool :=
   existsb (fun c => match c with FConsistency => true | _ => false end) (fl_constraints fb) &&
   (existsb (fun c => match c with FCross => true | _ => false end) (fl_constraints fb)
    || match fl_crossings fb with [] => true | _ => false end) &&
-  derivations_match.
+  derivations_match &&
+  exclude_backed && no_excluded_derived.
+
+(** the conjuncts of [in_f1] one by one (diagnostics for the harness: why a
+    generated program is outside the proved fragment) *)
+Definition f1_why : list bool :=
+  [ forallb factor_f1 (fl_design fb);
+    forallb (fun p => tables_ok (fst p) (snd p)) (combine (seq 0 (length (fl_design fb))) (fl_design fb));
+    forallb (fun p => tables_unambiguous (snd p)) (combine (seq 0 (length (fl_design fb))) (fl_design fb));
+    list_nat_eqb (fl_act fb) (seq 0 (length (fl_design fb)));
+    forallb (fun n => n =? 1) (fl_sustains fb);
+    (fl_alignment_preamble fb =? 0) && forallb (fun n => n =? 0) (fl_preambles fb);
+    crossings_f1 0 (fl_crossings fb);
+    forallb list_nat_nodup (fl_crossings fb);
+    forallb constraint_f1 (fl_constraints fb);
+    existsb (fun c => match c with FConsistency => true | _ => false end) (fl_constraints fb) &&
+    (existsb (fun c => match c with FCross => true | _ => false end) (fl_constraints fb)
+     || match fl_crossings fb with [] => true | _ => false end);
+    derivations_match;
+    exclude_backed && no_excluded_derived ].
 
 End CodeSem.
